@@ -617,6 +617,13 @@ def _proc_body(a):
             k = m.make_kernel([Q])
             y = call_kernel(k, dict(REQUESTS[model]))
             out.append((model, dtype, np.array(y).tobytes(), m.dllpath))
+    # a long-lived user of the library: stays alive (library mapped) while later
+    # builders come and go, then evaluates once more on the kernel it holds
+    for _ in range(int(a.data.get("linger") or 0)):
+        a.sched.yield_point("idle")
+    if a.data.get("linger") and out:
+        y = call_kernel(k, dict(REQUESTS[model]))
+        out.append((model, dtype, np.array(y).tobytes(), m.dllpath))
     return out
 
 
@@ -706,6 +713,7 @@ def run_one(cfg, decisions=None, keep_events=False):
             if spec.get("forked_from"):
                 a.data["forked_from"] = spec["forked_from"]
             a.data["release_reload"] = bool(spec.get("release_reload"))
+            a.data["linger"] = int(spec.get("linger") or 0)
             procs.append(a)
         sched.run()
         phase1_reason = sched.stop_reason
@@ -857,7 +865,8 @@ def gen_config(run_seed, tier):
         else:
             start = c.randint(0, 2 * solo_max)
         actors.append({"name": "P%d" % i, "loads": loads, "start_at": start,
-                       "release_reload": w.random() < 0.2})
+                       "release_reload": w.random() < 0.2,
+                       "linger": w.choice([0, 0, 0, 60, 250, 600])})
     if n >= 3 and c.random() < 0.15:
         # a parent that builds some other model first and then forks its workers
         # (multiprocessing with the fork start method): the children inherit the
